@@ -1301,7 +1301,7 @@ func doExtIDs(n int) {
 		h := heightsAround()[rng.Intn(8)]
 		e := signEntry(content, ss, salt, ts)
 		label := "valid"
-		switch rng.Intn(26) {
+		switch rng.Intn(28) {
 		case 0, 1, 2, 3, 4:
 		case 5: // salt at the window edges
 			d := []int64{43200, 43201, -43200, -43201, 43199, -43199, 0}[rng.Intn(7)]
@@ -1436,6 +1436,27 @@ func doExtIDs(n int) {
 				e.extids[2] = ed25519.Sign(factom.FsAddress(seedN("ed", 0)).PrivateKey(), composeMsg(0, []byte(salt), e.chain, content))
 				label = "unhashed-message"
 			}
+		case 24, 25: // JSON white space added to the content after signing: the same batch for a JSON reader, another
+			// byte string (and another entry hash) for the chain -- the signature covers the exact bytes
+			emit(e.clone(), h, "valid")
+			c := append([]byte(nil), e.content...)
+			ws := []string{" ", "\n", "\t", "\r\n", "  "}[rng.Intn(5)]
+			switch rng.Intn(4) {
+			case 0:
+				c = append(c, ws...)
+			case 1:
+				c = append([]byte(ws), c...)
+			case 2:
+				if p := bytes.IndexByte(c, ':'); p >= 0 {
+					c = append(c[:p+1:p+1], append([]byte(ws), c[p+1:]...)...)
+				}
+			case 3:
+				if p := bytes.LastIndexByte(c, '}'); p >= 0 {
+					c = append(c[:p:p], append([]byte(ws), c[p:]...)...)
+				}
+			}
+			e.content = c
+			label = "content-whitespace"
 		case 23: // the salt shifted into the index: "0"+"1580..." vs index 01?
 			e.extids[0] = append([]byte("0"), e.extids[0]...)
 			label = "salt-leading-zero-after-signing"
